@@ -58,5 +58,12 @@ C09Step(m, o) ==
                         \cup V(RowOf(st, Addr(o.args.h.src)) = RowOf(o.pre.state, Addr(o.args.h.src)),
                                "down/superseded-sender-changed-its-own-record")
                    ELSE {})
+             \* what a datagram does not mention it cannot change: the payload of an earlier, discarded datagram
+             \* (Down / superseded sender, rejected member list) must not surface with a later one
+             \cup (IF o.call = "data"
+                   THEN V(\A a \in (AddrsOf(o.pre.state) \cup addrs) \ (ToldBy(o) \cup {own}) :
+                               RowOf(st, a) = RowOf(o.pre.state, a),
+                          "datagram-changed-the-record-of-an-address-it-does-not-mention")
+                   ELSE {})
     IN [told |-> told, maxgen |-> mg, v |-> v]
 =============================================================================
